@@ -6,6 +6,7 @@ backup count) and every interruption point between two primitive steps of `rotat
 Model: `Clem/Model/LogRotate.lean` (`steps` = the list of `os.remove` / `os.replace` calls the
 code performs, `crashState fs b j` = state after a crash following the first `j` of them).
 -/
+import Clem.Gen.Logs
 import Clem.Model.LogRotate
 import Clem.Proofs.LogRotate
 
@@ -134,12 +135,57 @@ theorem C16_rotate_legal_monitor_sound (before after : FS) (n hi : Nat)
     have := List.all_eq_true.mp hall i (List.mem_range.mpr hi')
     simpa using this
 
-/-! ### non-vacuity and concrete histories -/
-
 /-- generations `path`(100), `.1`(101), `.3`(103) — a gap at `.2` — and `.5`(105) beyond N = 3. -/
 def demoFS : FS := fun i =>
   if i = 0 then some 100 else if i = 1 then some 101 else if i = 3 then some 103
   else if i = 5 then some 105 else none
+
+/-! ### transient and persistent rename faults -/
+
+/-- A rename attempt that fails and is retried changes nothing: with any number of failed attempts
+before each step the rotation ends in the same state (so all the theorems above apply). -/
+theorem C16_rotate_transient_faults (fs : FS) (l : List (Step × Nat)) :
+    execRetried fs l = exec fs (l.map (·.1)) := by
+  induction l generalizing fs with
+  | nil => rfl
+  | cons a l ih =>
+    obtain ⟨s, k⟩ := a
+    have hk : Nat.repeat id k fs = fs := by
+      induction k with
+      | zero => rfl
+      | succ n ihn => simp [Nat.repeat, ihn]
+    simp only [execRetried, hk, List.map_cons]
+    rw [ih]; rfl
+
+/-- the errno values `atomic_replace` retries are exactly the documented ones (table regenerated
+from io/atomic.py: dropping one breaks this theorem), and `PermissionError` is retried. -/
+theorem C16_rotate_retry_set :
+    Clem.Gen.Logs.replaceRetryErrnos =
+      [[69, 65, 67, 67, 69, 83],      -- EACCES
+       [69, 66, 85, 83, 89],          -- EBUSY
+       [69, 80, 69, 82, 77]] ∧        -- EPERM
+    Clem.Gen.Logs.replaceRetriesPermissionError = true := by decide
+
+/-- **Negative (pinned tree).**  Full-strength statement, NOT a theorem of the code:
+`∀ fs b j i c, i ≠ b.toNat → fs i = some c → failState fs b j i = some c ∨ failState fs b j (i+1) = some c`.
+A rename that fails for good makes `atomic_replace` unlink its source: with `path, .1, .3` and
+3 backups, a persistent failure of `.1 → .2` (step index 1) loses generation `.1` (content 101),
+which is not the oldest. -/
+theorem C16_rotate_persistent_failure_loses_source_witness :
+    steps demoFS 3 = [.rm 3, .mv 1 2, .mv 0 1] ∧
+    (List.range 7).map (failState demoFS 3 1) = [some 100, none, none, none, none, some 105, none] ∧
+    nothingLostB demoFS (failState demoFS 3 1) 3 6 = false := by decide
+
+theorem C16_rotate_persistent_failure_not_lossless :
+    ¬ (∀ (fs : FS) (b : Int) (j i c : Nat), i ≠ b.toNat → fs i = some c →
+        failState fs b j i = some c ∨ failState fs b j (i + 1) = some c) := by
+  intro h
+  have := h demoFS 3 1 1 101 (by decide) (by decide)
+  revert this
+  decide
+
+/-! ### non-vacuity and concrete histories -/
+
 
 example : steps demoFS 3 = [.rm 3, .mv 1 2, .mv 0 1] := by decide
 example : (List.range 7).map (rotateOne demoFS 3) =
